@@ -37,7 +37,7 @@ FRESH_CALLS = {
 FRESH_METHODS = {'copy', 'astype', 'tolist', 'toarray', 'todense', 'tocsr', 'tocsc', 'tocoo', 'tolil', 'tobsr', 'dot',
                  'sum', 'prod', 'min', 'max', 'mean', 'cumsum', 'nonzero', 'conj', 'conjugate', 'flatten', 'item',
                  'argsort', 'argmax', 'argmin', 'round', 'clip', 'repeat', 'tobytes', 'union', 'intersection',
-                 'difference', 'symmetric_difference', 'keys', 'values', 'items', 'get', 'index', 'count', 'join',
+                 'difference', 'symmetric_difference', 'keys', 'values', 'items', 'index', 'count', 'join',
                  'format', 'split', 'norm', 'transpose_copy', 'asformat', 'multiply', 'power', 'diagonal', 'trace',
                  'any', 'all', 'std', 'var'}
 # astype(copy=False) may alias -- handled below
@@ -161,7 +161,8 @@ class Effects:
                     return {'fresh'}
                 if m in FRESH_METHODS:
                     return {'fresh'}
-                if m == '__getitem__':
+                if m in ('__getitem__', 'get'):
+                    # D.get(key) hands out the stored object itself (a memo hit returns shared storage)
                     return self.roots(e.func.value)
                 # unknown method: may return internal state of its receiver
                 base = self.roots(e.func.value)
@@ -301,11 +302,15 @@ class Effects:
         # pass/break/continue/global/import: nothing
 
     def _loop(self, body):
-        # two passes so that roots bound late in the body reach uses early in the next iteration
+        # two passes so that roots bound late in the body reach uses early in the next iteration; afterwards the environment
+        # is joined with the one before the loop (the body may run zero times: X = As[0]; for A in As[1:]: X = kron(X, A))
+        before = {k: set(v) for k, v in self.env.items()}
         nw = len(self.writes)
         self._block(body)
         del self.writes[nw:]
         self._block(body)
+        for k, v in before.items():
+            self.env[k] = set(self.env.get(k, set())) | v
 
     def _block(self, stmts):
         for s in stmts or []:
